@@ -1305,9 +1305,10 @@ def run(ctx):
             ctx.count("stream=recorded-findings")
             fx.close()
         # 2a. process-level state / path re-use: early in the run, before the default calls of the main stream
-        n = state_stream(ctx, rng, n)
+        if first:
+            n = state_stream(ctx, rng, n)
         # 2a'. every serialisation / key order; the command line with an IDs file; tables in sub-groups
-        if first or not quick:
+        if first:                      # deterministic streams: once per run, not once per worker
             n = group_stream(ctx, rng, n)
             n = ser_stream(ctx, rng, n)
             n = cli_stream(ctx, rng, n)
@@ -1318,7 +1319,7 @@ def run(ctx):
         if first or not quick:
             n = large_stream(ctx, rng, n, quick)
         # 3. main stream
-        n_tables = 28 if quick else max(30, 360 // getattr(ctx, "worker", (0, 1))[1])
+        n_tables = 28 if quick else max(24, 300 // getattr(ctx, "worker", (0, 1))[1])
         routes = ["dense", "csr", "csc", "coo", "csr_unsorted", "csr_zeros", "sort_roundtrip", "lil"]
         gens = ["BIOM-Format 2.1", "x", "généré par é"]
         for k in range(n_tables):
